@@ -3,18 +3,18 @@
 import json
 
 CLAIMED = {
- "C01": ("DESIGN.md §5 C01", "every byte string up to N bytes, and 24 JSON skeletons of 7..17 bytes with free symbolic bytes (whole and chunked), through all strict front-ends vs an RFC 8259 reference recogniser executed symbolically on the same bytes"),
- "C02": ("DESIGN.md §5 C02", "number literals with every digit symbolic at and around the accumulator thresholds (int64 exact, float64 = ParseFloat of a text with the same decimal denotation, json.Number same denotation) and string literals with symbolic content / escapes vs a reference decoder, through the parsers and the tokenizer"),
- "C03": ("DESIGN.md §5 C03", "differential: oj.Parse vs reader variants behind a chunking reader (every split point / composition), tokenizer+Builder, gen.Parser+Simplify, validator, sen.Parser on valid JSON; JSON skeletons with free bytes; the SEN family (Parse, ParseReader, Tokenizer, Tokenizer.Load) among themselves; multi-document mode (callbacks, channels, tokenizers) for the sequence of documents delivered"),
+ "C01": ("DESIGN.md §5 C01", "every byte string up to N bytes, and 30 JSON skeletons of 7..27 bytes with free symbolic bytes (whole and chunked; six with numbers of 20+ digits), through all strict front-ends vs an RFC 8259 reference recogniser executed symbolically on the same bytes; and one inductive step of the real per-buffer function of oj.Validator, oj.Tokenizer, oj.Parser and gen.Parser from the canonical state of every reference-automaton configuration (container stacks to depth L+1 = or deeper) on every chunk of <= L symbolic bytes: error iff the reference rejects, canonical post-state, end-of-input verdict - by induction, streamed inputs of any length and depth in reads of <= L bytes"),
+ "C02": ("DESIGN.md §5 C02", "number literals with every digit symbolic at and around the accumulator thresholds (int64 exact, float64 = ParseFloat of a text with the same decimal denotation, json.Number same denotation) a plain integer of <= 18 digits (or 19 starting with 1-8) is an int64, and string literals with symbolic content / escapes vs a reference decoder, through the parsers and the tokenizer, also as the second string of a streamed document split at every position"),
+ "C03": ("DESIGN.md §5 C03", "differential: oj.Parse vs reader variants behind a chunking reader (every split point followed by a zero-length Read / every composition), tokenizer+Builder, gen.Parser+Simplify, validator, sen.Parser on valid JSON; JSON skeletons with free bytes; the SEN family (Parse, ParseReader, Tokenizer, Tokenizer.Load) among themselves; multi-document mode (callbacks, channels, tokenizers) for the sequence of documents delivered"),
  "C04": ("DESIGN.md §5 C04", "AppendJSONString on every string up to N bytes and oj.Writer on tree shapes with symbolic leaves under the option combinations, decoded by a reference JSON decoder and compared with the input; streaming Write with symbolic WriteLimit vs the in-memory text; Sort determinism over all map iteration orders (in-memory and streamed); pretty.Writer (alignment, line breaking) output decodes to the input"),
  "C05": ("DESIGN.md §5 C05", "jp.Expr.Get vs a reference selector over concrete data shapes with symbolic indexes, slice bounds, keys and filter constants, every fragment kind in every position"),
- "C06": ("DESIGN.md §5 C06", "no-panic / terminates assertions on every byte string up to N bytes through the JSON and SEN parsers, validators and tokenizers, and through the JSONPath / filter-script text parser (Must* panics must carry an error, never a runtime fault); panics are explicit fault branches of the executor, non-termination candidates are confirmed natively"),
+ "C06": ("DESIGN.md §5 C06", "no-panic / terminates assertions on every byte string up to N bytes through the JSON and SEN parsers, validators and tokenizers, no panic of the JSON per-buffer functions from every canonical machine state on every chunk of <= L bytes (inductive step: streamed inputs of any length), and through the JSONPath / filter-script text parser (Must* panics must carry an error, never a runtime fault); panics are explicit fault branches of the executor, non-termination candidates are confirmed natively"),
  "C10": ("DESIGN.md §5 C10", "sen.Writer -> sen.Parser round trip of every string up to N bytes in four contexts (top, element, value, key) and of tree shapes with symbolic leaves under writer options, and of pretty.Writer in SEN mode; the oracle is the real parser plus tree equality"),
  "C11": ("DESIGN.md §5 C11", "Has, First, FirstFound, Locate, Walk, GetNodes, FirstNode, the evaluators on gen data and on user jp.Keyed / jp.Indexed collections against Get, same symbolic path space as C05"),
- "C12": ("DESIGN.md §5 C12", "operator x left kind x right kind matrix with symbolic operand values against the property's typed comparison semantics; totality; ==/!= complement; multi-valued operands; Script.Match vs filter"),
- "C13": ("DESIGN.md §5 C13", "Set/Del/Remove/Modify and their *One forms vs reference mutations at the locations the reference selector picks (whole-tree equality = frame condition), symbolic indexes/bounds/keys; plus a slice-grid frame assertion that does not depend on how a slice end is read"),
+ "C12": ("DESIGN.md §5 C12", "operator x left kind x right kind matrix with symbolic operand values against the property's typed comparison semantics; totality; ==/!= complement; the in operator; the same element held as gen nodes; multi-valued operands; Script.Match vs filter"),
+ "C13": ("DESIGN.md §5 C13", "Set/Del/Remove/Modify and their *One forms vs reference mutations at the locations the reference selector picks (whole-tree equality = frame condition), symbolic indexes/bounds/keys; plus a slice-grid frame assertion that does not depend on how a slice end is read; the same requests on jp.Keyed / jp.Indexed collections and on gen nodes agree with the simple data"),
  "C14": ("DESIGN.md §5 C14", "print / parse / print round trip of Child keys (all keys up to K bytes, 5 positions, dot and bracket form), symbolic integers in Nth/Slice/Union, and every typed equation tree up to 3 operators through both printers, with the solver searching operand values that distinguish original and re-parsed evaluation"),
- "C17": ("DESIGN.md §5 C17", "oj.Match / MatchLoad (chunked) callback sequence vs the outermost reference selections on the parsed document in document order, concrete document skeletons with symbolic leaves, targets with symbolic indexes"),
+ "C17": ("DESIGN.md §5 C17", "oj.Match / MatchLoad (chunked) callback sequence vs the outermost reference selections on the parsed document in document order, concrete document skeletons with symbolic leaves, one or two targets with symbolic indexes"),
  "C18": ("DESIGN.md §5 C18", "Generify/Simplify, GenAlter/Alter, Dup, Decompose, gen Dup on tree shapes with symbolic leaves: exact tree equality, no shared containers (heap identity in the executor), mutate-after-copy in both directions; gen vs simple writer output"),
  "C20": ("DESIGN.md §5 C20", "asm plans [set $.asm [fn args...]] over 19 functions x arity x argument kinds with symbolic values: no panic, determinism, $.src frame, documented results for the all-int / all-bool / string cells, String() -> sen.Parse -> NewPlan equivalence; eq/neq on containers"),
  "C19": ("DESIGN.md §5 C19", "alt.Diff/Compare/Match on pairs of trees with symbolic leaves and ignore paths: empty iff equal (up to numeric width, null-vs-absent), soundness and completeness of the reported paths, Compare vs Diff, Match vs reference; gen nodes vs simple data"),
